@@ -41,6 +41,8 @@ POOLS = {
     "nonascii": ["д", "Д", "é", "ß", "SS"],
     # characters whose case mapping changes the length or has a title-case form
     "nonascii2": ["İ", "ı", "ǅ", "ﬁx", "i"],
+    # runs of capitals that are not (all) ASCII: case folding inside a word must not look at bytes
+    "nonasciicaps": ["ЦЕНА", "Цена", "ÉÜ", "ДA", "AÖ"],
     "depth": ["a"],
     "underscore": ["_", "a", "a1"],
     "fields": ["text", "text_content", "type"],
